@@ -55,7 +55,7 @@ fn k_pb_ops() {
 // @ob id=K.path_transform props=C20,C11 kind=bounded:4-ops tier=quick timeout=900 fns=Path::transform
 // @+ desc="Path::transform on a path MoveTo, QuadTo, Close, LineTo, for EVERY f32 coordinate and EVERY affine transform (transform_point replaced by an uninterpreted function): same number of ops, same kinds in the same order, same winding rule, every point p replaced by transform.transform_point(p), each exactly once (CubicTo: K.pathop_transform)"
 #[kani::proof]
-#[kani::unwind(12)]
+#[kani::unwind(14)]
 #[kani::stub(euclid::Transform2D::transform_point, transform_point_uf)]
 fn k_path_transform() {
     let v: [f32; 8] = kani::any();
